@@ -77,6 +77,18 @@ func init() {
 			},
 		},
 		propCheck{
+			ID: "C17", Level: "exploration",
+			Rule: "one evaluation = one simulated multi-session history (2-4 sessions, 1-2 tables, 6-40 steps: BEGIN / START TRANSACTION [READ ONLY] / COMMIT / ROLLBACK / SET autocommit / INSERT / UPDATE / DELETE / duplicate insert / injected storage error inside a transaction / session drop with an open transaction / reads), the tape choosing which session acts next; regime S (serial: one open transaction at a time, others read) checks every read against a committed+pending model, regime V (arbitrary overlap) checks attribution of unique values: nothing uncommitted or rolled back is ever visible; non-trivial = at least two sessions; distinct = distinct hash of the action-kind sequence",
+			Real: []string{"engine transaction begin/commit (engine.go, rowexec/transaction_iters.go)", "memory.Session staging/commit/rollback", "memory table editor"},
+			Stub: []string{"session scheduling at statement granularity (simulator)", "storage error source (verifhook.Fault)"},
+			Assumptions: []string{"statements of different sessions are interleaved at statement granularity, never overlapped in real parallelism (README: the in-memory backend supports one writer goroutine at a time)",
+				"DDL inside an open transaction is not generated (C17 does not speak about implicit commits)"},
+			Subs: []subCheck{
+				{ID: "C17", World: "sqlsim", Quick: 16000, Thorough: 800000, QuickCap: 80, ThoroughCap: 1500, GC: "100",
+					Probes: []string{"rollback", "session-drop", "edit-error-in-transaction"}},
+			},
+		},
+		propCheck{
 			ID: "C45", Level: "exploration",
 			Rule: "one evaluation = one simulated run: 2-4 tasks redact generated statements and single lexemes through one shared Mapping, the scheduler interleaving them at the RUnlock->Lock upgrade window; non-trivial = the upgrade window actually parked a goroutine; distinct = distinct hash of the event-kind sequence",
 			Real: []string{"sqlredact.Mapping", "sqlredact.RedactSQLForTraceInto", "vitess tokenizer and parser"},
